@@ -13,8 +13,9 @@ Driver for C20 (migrations). One output line per input line.
   constrains the parameters that were NOT supplied (they must keep their value); what a supplied parameter becomes is
   governance-update semantics (C18) and is compared behind ` ## ` only (DRIFT, never a failure).
 * any other line (`act …`, `put …`, `sync`) — an environment step performed on the real contract; the line carries the
-  resulting state fields, the model adopts them. Answer: `ok`. (`sync` follows every accepted message-carrying factory
-  migration, so that a drift in a supplied parameter does not leak into later primary comparisons.)
+  resulting state fields, the model adopts them. Answer: `ok`. (`sync` is available to re-synchronise by hand; it is not
+  needed: an accepted message-carrying `mig` line carries the witness `rp=<the implementation's parameters afterwards>`, from
+  which the model adopts the SUPPLIED parameters only, so a drift there does not leak into later primary comparisons.)
 
 Case header witnesses for sg721-updatable (read by the harness from the contract's source, where the constants are
 private): `acc=<names>` = `COMPATIBLE_CONTRACT_NAMES_FOR_MIGRATION`, `bn=<names>` = the inline sg721-base names whose
@@ -213,8 +214,10 @@ def insertSorted (x : String) : List String → List String
   | [] => [x]
   | y :: ys => if x < y then x :: y :: ys else y :: insertSorted x ys
 
-def renderChanged (a b : St) : String :=
-  let ks := (changedKeys a b).map keyName
+/-- `dropParams`: on a message-carrying factory migration whether `sudo-params` changed at all depends on the SUPPLIED values
+(outside C20's projection; the unsupplied parameters are compared one by one in `params=`), so the key is reported behind ` ## ` -/
+def renderChanged (a b : St) (dropParams : Bool := false) : String :=
+  let ks := ((changedKeys a b).filter fun k => !(dropParams && k == K_PARAMS)).map keyName
   let ks := ks.foldl (fun acc k => insertSorted k acc) []
   if ks.isEmpty then "-" else String.intercalate "," ks
 
@@ -238,6 +241,18 @@ def msg? (ws : List String) : Option (Option FMsg) :=
       shuffleFee := ← optField ws "sf" coin?, devFeeAddr := ← optField ws "dev" nat? }
     pure (some m)
   | _ => some none
+
+/-- the parameters whose index is in `mask` (supplied by the message; outside C20's projection) are taken from the
+implementation's witness `w`, all others stay as the model computed them -/
+def adoptSupplied (p w : FParams) (mask : List Nat) : FParams :=
+  let c (i : Nat) : Bool := mask.contains i
+  { codeId := if c 0 then w.codeId else p.codeId, ids := if c 1 then w.ids else p.ids,
+    frozen := if c 2 then w.frozen else p.frozen, creationFee := if c 3 then w.creationFee else p.creationFee,
+    minMintPrice := if c 4 then w.minMintPrice else p.minMintPrice, mintFeeBps := if c 5 then w.mintFeeBps else p.mintFeeBps,
+    offset := if c 6 then w.offset else p.offset, maxTokenLimit := if c 7 then w.maxTokenLimit else p.maxTokenLimit,
+    maxPerAddr := if c 8 then w.maxPerAddr else p.maxPerAddr, airdropPrice := if c 9 then w.airdropPrice else p.airdropPrice,
+    airdropBps := if c 10 then w.airdropBps else p.airdropBps, shuffleFee := if c 11 then w.shuffleFee else p.shuffleFee,
+    devFeeAddr := if c 12 then w.devFeeAddr else p.devFeeAddr }
 
 def stepLine (d : DSt) (line : String) : DSt × String :=
   let ws := words line
@@ -264,8 +279,15 @@ def stepLine (d : DSt) (line : String) : DSt × String :=
       match migrate d1.spec t msg d1.st with
       | .error _ => pure (d1, "err")
       | .ok s' =>
-        pure ({ d1 with st := s' },
-          s!"ok {renderStateMasked d1.names s' (suppliedIdx ws)} ch={renderChanged d1.st s'} ## params={renderParams s'.params}")
+        let hasMsg := match d1.spec.kind with | .factory _ => msg.isSome | _ => false
+        let mask := suppliedIdx ws
+        -- witness `rp=`: the implementation's parameters after the migration; only the SUPPLIED ones are adopted (for the
+        -- following steps), the printed line below still shows what the model computed
+        let next : St := match s'.params, (kv ws "rp").bind params? with
+          | some p, some (some w) => { s' with params := some (adoptSupplied p w mask) }
+          | _, _ => s'
+        pure ({ d1 with st := next },
+          s!"ok {renderStateMasked d1.names s' (suppliedIdx ws)} ch={renderChanged d1.st s' hasMsg} ## params={renderParams s'.params} pch={if (changedKeys d1.st s').contains K_PARAMS then "1" else "0"}")
     r.getD (d, "bad-op")
   | some _ => (readState d ws, "ok")
   | none => (d, "bad-op")
